@@ -116,8 +116,25 @@ def run_case(case):
                         shared_nonkey = {x for x in ent["cols"] & other["cols"] if x in "xyz"}
                         if shared_nonkey:
                             continue
-                        if rng.random() < 0.35 and ent["eng"] == other["eng"]:
-                            prog = ["join", ent["prog"], other["prog"], None, {"maxc": list("abcdefg"), "partial": rng.random() < 0.5}]
+                        r_route = rng.random()
+                        if r_route < 0.12 and ent["cols"]:
+                            # directed: the join has to backtrack through a projection and a transfer
+                            # into the engine of a fixed operand that ends in a calculation
+                            fx = g.unary((other["prog"], other["cols"], other["eng"]), "calc")
+                            dest = rng.choice([e for e in c03.ENG if e != other["eng"]])
+                            if fx is None or ent["eng"] != other["eng"] or (fx[1] - other["cols"]) & ent["cols"]:
+                                continue
+                            keep = sorted(x for x in ent["cols"] if rng.random() < 0.7)
+                            tprog = ["proj", ["xfer", ent["prog"], dest], keep, None]
+                            if {x for x in set(keep) & fx[1] if x in "xyz"}:
+                                continue
+                            prog = ["join", tprog, fx[0], None, {"maxc": list("abcdefg"), "partial": True, "is_lhs": rng.random() < 0.5}]
+                        elif r_route < 0.35 and ent["eng"] == other["eng"]:
+                            prog = ["join", ent["prog"], other["prog"], None, {"maxc": list("abcdefg"), "partial": rng.random() < 0.5, "is_lhs": rng.random() < 0.4}]
+                        elif r_route < 0.5:
+                            # Join.partial(fixed, is_lhs).apply(target) across engines: the fixed
+                            # operand's engine is the preferred one, the join backtracks into it
+                            prog = ["join", ent["prog"], other["prog"], None, {"maxc": list("abcdefg"), "partial": True, "is_lhs": rng.random() < 0.5}]
                         else:
                             prog = ["join", ent["prog"], other["prog"], None, {"bt": rng.random() < 0.7, "tr": rng.random() < 0.5}]
                     what = model.show(prog)
